@@ -12,8 +12,13 @@ with the tree the *description* prescribes by the documented rules:
   an object without content under a nillable field also carries xsi:nil="true";
 * lists repeat the element; `wrapper` adds one enclosing element in the field's namespace
   (also around an empty list);
-* a text field is the element's character content; order is field definition order.
+* a text field is the element's character content; order is field definition order;
+* inheritance: `Meta` is NOT inherited — a subclass without a Meta of its own is named after the class and
+  has no namespace of its own (it takes the enclosing class's, also below a base whose Meta sets one);
+  the fields of the base come first; an element field declared in a base class with a Meta of its own
+  defaults to the namespace THAT Meta sets (else to the namespace of the class of the instance).
 """
+import copy
 import itertools
 from dataclasses import field, make_dataclass
 from typing import List, Optional
@@ -33,8 +38,10 @@ TEXTS = ["v", "1 < 2", "a & b", "", "x\"y'", "  pad  ", "é"]
 _counter = itertools.count()
 
 
-def rand_model(rng, depth):
-    """a model description (JSON-able)"""
+def rand_model(rng, depth, bases=True, prefix="f", pool=None):
+    """a model description (JSON-able); `base`: the description of a base class (its fields are
+    inherited), `own_meta`: the class has a `Meta` of its own (a class without a base always has)"""
+    pool = [] if pool is None else pool     # finished nested models of this root: a class may be used twice
     m = {
         "cls": "M%d" % next(_counter),
         "meta_name": rng.choice([None, None, rng.choice(NAMES)]),
@@ -42,22 +49,35 @@ def rand_model(rng, depth):
         "namespace": rng.choice(NSPOOL),
         "fields": [],
     }
+    if bases and rng.random() < 0.35:
+        # the whole family: base with / without a namespace of its own, itself derived or not,
+        # subclass with a Meta of its own (with / without namespace) or without one
+        b = rand_model(rng, 0, bases=rng.random() < 0.3, prefix=prefix + "b")
+        b["fields"] = [f for f in b["fields"] if f["kind"] != "text"]
+        m["base"] = b
+        m["own_meta"] = rng.random() < 0.45
+        if not m["own_meta"]:
+            m["meta_name"], m["has_ns"], m["namespace"] = None, False, None
+            if rng.random() < 0.6:      # … below a base whose Meta sets a namespace
+                b["own_meta"], b["has_ns"], b["namespace"] = True, True, rng.choice(["urn:m1", "urn:m2", "urn:b1"])
     used = set()
 
     def fname():
         for _ in range(20):
-            n = "f_%s" % rng.choice("abcdefgh")
+            n = "%s_%s" % (prefix, rng.choice("abcdefgh"))
             if n not in used:
                 used.add(n)
                 return n
-        return "f_%d" % next(_counter)
+        return "%s_%d" % (prefix, next(_counter))
 
-    seen_attrs = set()
+    # two attributes with one name (also along the inheritance chain) are not a binding model
+    seen_attrs = {(f["namespace"], f.get("local") or f["name"]) for f, _ in (all_fields(m["base"]) if m.get("base") else [])
+                  if f["kind"] == "attribute"}
     for _ in range(rng.choice([0, 1, 1, 2])):
         a = {"name": fname(), "kind": "attribute", "local": rng.choice([None, None, rng.choice(NAMES)]),
              "namespace": rng.choice([None, None, None, "urn:f1", "urn:m1"])}
         key = (a["namespace"], a["local"] or a["name"])
-        if key not in seen_attrs:  # two attributes with one name are not a binding model
+        if key not in seen_attrs:
             seen_attrs.add(key)
             m["fields"].append(a)
     n_el = rng.choice([0, 1, 2, 2, 3])
@@ -66,24 +86,39 @@ def rand_model(rng, depth):
              "namespace": rng.choice(FNS), "list": rng.random() < 0.25, "nillable": rng.random() < 0.15,
              "wrapper": None, "type": "str"}
         if depth > 0 and rng.random() < 0.45:
-            f["type"] = rand_model(rng, depth - 1)
+            if pool and rng.random() < 0.3:
+                # the same class again, possibly under a class of another namespace (one metadata cache)
+                f["type"] = copy.deepcopy(rng.choice(pool))
+            else:
+                f["type"] = rand_model(rng, depth - 1, bases=bases, prefix=prefix, pool=pool)
+                pool.append(copy.deepcopy(f["type"]))
             f["nillable"] = f["nillable"] and not f["list"]
         elif f["list"] and rng.random() < 0.4:
             f["wrapper"] = rng.choice(["wrap", "items"])
             f["local"] = f["local"] or "item"
         m["fields"].append(f)
-    if n_el == 0 and rng.random() < 0.6:
+    if n_el == 0 and not m.get("base") and rng.random() < 0.6:
         m["fields"].append({"name": fname(), "kind": "text"})
     return m
 
 
+def all_fields(m):
+    """(field, declaring model) pairs in dataclass order: base fields first"""
+    out = all_fields(m["base"]) if m.get("base") else []
+    return out + [(f, m) for f in m["fields"]]
+
+
+def has_base(m):
+    return bool(m.get("base")) or any(has_base(f["type"]) for f in m["fields"] if isinstance(f.get("type"), dict))
+
+
 def depth(m):
-    return 1 + max([depth(f["type"]) for f in m["fields"] if isinstance(f.get("type"), dict)] or [0])
+    return 1 + max([depth(f["type"]) for f, _ in all_fields(m) if isinstance(f.get("type"), dict)] or [0])
 
 
 def rand_instance(rng, m):
     inst = {}
-    for f in m["fields"]:
+    for f, _ in all_fields(m):
         if f["kind"] == "attribute":
             inst[f["name"]] = rng.choice([None, rng.choice(TEXTS)])
         elif f["kind"] == "text":
@@ -102,7 +137,17 @@ def rand_instance(rng, m):
 
 
 # ------------------------------------------------------------------ description -> dataclasses
-def build_class(m):
+def build_class(m, reg=None):
+    """`reg`: classes by name — a description that occurs twice is ONE class"""
+    reg = {} if reg is None else reg
+    if m["cls"] in reg:
+        m["_class"] = reg[m["cls"]]
+        for f in m["fields"]:
+            if isinstance(f.get("type"), dict):
+                build_class(f["type"], reg)
+        if m.get("base"):
+            build_class(m["base"], reg)
+        return m["_class"]
     fields = []
     for f in m["fields"]:
         md = {}
@@ -116,7 +161,7 @@ def build_class(m):
             default = field(default=None, metadata=md)
         else:
             md["type"] = "Element"
-            base = build_class(f["type"]) if isinstance(f["type"], dict) else str
+            base = build_class(f["type"], reg) if isinstance(f["type"], dict) else str
             if f["nillable"]:
                 md["nillable"] = True
             if f["wrapper"]:
@@ -137,14 +182,17 @@ def build_class(m):
         meta["name"] = m["meta_name"]
     if m["has_ns"]:
         meta["namespace"] = m["namespace"]
-    cls = make_dataclass(m["cls"], fields, namespace={"Meta": type("Meta", (), meta)})
+    bases = (build_class(m["base"], reg),) if m.get("base") else ()
+    ns = {"Meta": type("Meta", (), meta)} if m.get("own_meta", True) else {}
+    cls = make_dataclass(m["cls"], fields, bases=bases, namespace=ns)
     m["_class"] = cls
+    reg[m["cls"]] = cls
     return cls
 
 
 def build_object(m, inst):
     kw = {}
-    for f in m["fields"]:
+    for f, _ in all_fields(m):
         v = inst[f["name"]]
         if f["kind"] == "element" and isinstance(f["type"], dict):
             if f["list"]:
@@ -157,15 +205,17 @@ def build_object(m, inst):
 
 # ------------------------------------------------------------------ description -> expected tree
 def class_ns(m, parent_ns):
-    return (m["namespace"] or None) if m["has_ns"] else parent_ns
+    return (m["namespace"] or None) if m.get("own_meta", True) and m["has_ns"] else parent_ns
 
 
 def expected(m, inst, name, parent_ns):
     """element `name` = (ns, local) holding instance `inst` of model `m`"""
     cns = class_ns(m, parent_ns)
     attrs, kids = [], []
-    for f in m["fields"]:
+    for f, decl in all_fields(m):
         v = inst[f["name"]]
+        # an inherited field defaults to the namespace the Meta of its declaring class sets, if it sets one
+        dns = (decl["namespace"] or None) if decl is not m and decl.get("own_meta", True) and decl["has_ns"] else cns
         local = f.get("local") or f["name"]
         if f["kind"] == "attribute":
             if v is not None:
@@ -174,7 +224,7 @@ def expected(m, inst, name, parent_ns):
             if v:
                 kids.append(["t", v])
         else:
-            ens = cns if f["namespace"] is None else (f["namespace"] or None)
+            ens = dns if f["namespace"] is None else (f["namespace"] or None)
             values = v if f["list"] else [v]
             items = []
             for x in values:
@@ -200,7 +250,7 @@ def expected(m, inst, name, parent_ns):
 
 def expected_root(m, inst):
     ns = class_ns(m, None)
-    local = m["meta_name"] or m["cls"]
+    local = (m["meta_name"] if m.get("own_meta", True) else None) or m["cls"]
     return expected(m, inst, (ns, local), ns)
 
 
@@ -208,6 +258,8 @@ def expected_root(m, inst):
 def strip_private(m):
     out = {k: v for k, v in m.items() if not k.startswith("_")}
     out["fields"] = [dict(f, type=strip_private(f["type"])) if isinstance(f.get("type"), dict) else dict(f) for f in m["fields"]]
+    if m.get("base"):
+        out["base"] = strip_private(m["base"])
     return out
 
 
@@ -259,7 +311,46 @@ OBJ_MAPS = [[], [], [[None, "urn:m1"]], [["", "urn:m2"]], [["p", "urn:m1"]], [["
             [["unused", "urn:zzz"]], [["ns1", "urn:m1"]], [["x", S.XSI]], [[None, "urn:f1"], ["m", "urn:m3"]]]
 
 
+def _el(name, typ="str", ns=None, lst=False):
+    return {"name": name, "kind": "element", "local": None, "namespace": ns, "list": lst, "nillable": False, "wrapper": None, "type": typ}
+
+
+def _cls(name, fields, ns=None, has_ns=None, base=None, own_meta=True):
+    m = {"cls": name, "meta_name": None, "has_ns": (ns is not None) if has_ns is None else has_ns, "namespace": ns, "fields": fields}
+    if base is not None:
+        m["base"], m["own_meta"] = base, own_meta
+    return m
+
+
+def hand_models():
+    """the family around `Meta` not being inherited and one metadata cache per context:
+    Holder{ns H}.s : Sub(Base) for Base with / without a namespace, Sub with a Meta of its own (without
+    namespace) or without one, one or two levels of bases; and one class used under classes of two namespaces"""
+    k = itertools.count()
+    for base_ns in (None, "urn:base", "urn:h"):
+        for own_meta in (False, True):
+            for deep in (False, True):
+                for holder_ns in ("urn:h", None):
+                    i = next(k)
+                    base = _cls("HB%d" % i, [_el("x")], ns=base_ns)
+                    if deep:
+                        base = _cls("HMid%d" % i, [_el("w")], base=base, own_meta=False, has_ns=False)
+                    sub = _cls("HSub%d" % i, [_el("y"), _el("z", lst=True)], base=base, own_meta=own_meta, has_ns=False)
+                    holder = _cls("HHolder%d" % i, [_el("s", typ=sub), _el("t")], ns=holder_ns)
+                    inst = {"s": dict({"x": "1", "y": "2", "z": ["3", "4"]}, **({"w": "0"} if deep else {})), "t": "5"}
+                    yield holder, inst
+    # one class, two enclosing namespaces
+    for i, (ns1, ns2) in enumerate([("urn:m1", "urn:m2"), (None, "urn:m2"), ("urn:m1", None)]):
+        leaf = _cls("HLeaf%d" % i, [_el("v")], has_ns=False)
+        inner = _cls("HInner%d" % i, [_el("c", typ=copy.deepcopy(leaf))], ns=ns2)
+        outer = _cls("HOuter%d" % i, [_el("a", typ=copy.deepcopy(leaf)), _el("p", typ=inner), _el("b", typ=copy.deepcopy(leaf))], ns=ns1, has_ns=True)
+        yield outer, {"a": {"v": "1"}, "p": {"c": {"v": "2"}}, "b": {"v": "3"}}
+
+
 def gen_object(rng, tier):
+    for m, inst in hand_models():
+        for nm in ([], [[None, "urn:h"]], [["h", "urn:h"], ["b", "urn:base"]]):
+            yield {"model": m, "inst": inst, "ns_map": nm}
     n = 500 if tier == "quick" else 15000
     for _ in range(n):
         m = rand_model(rng, rng.choice([0, 1, 1, 2]))
@@ -273,6 +364,8 @@ SAFE_OBJ_MAPS = [[], [], [["p", "urn:m1"], ["q", "urn:f1"]], [["unused", "urn:zz
 
 
 def gen_ser_object(rng, tier):
+    for m, inst in hand_models():
+        yield {"model": m, "inst": inst, "ns_map": []}
     n = 600 if tier == "quick" else 20000
     for _ in range(n):
         m = rand_model(rng, rng.choice([0, 1, 1, 2, 2]))
